@@ -129,3 +129,64 @@ void harness_garbage_adler32(void) {
   verif_check(ha == hb, "garbage/adler32-same-hash");
   verif_reach("garbage/done");
 }
+
+// ---- hand-written base sub-module: the YCC(K) swizzler's caller-supplied scratch buffer ----
+// Two conversions of the same planes (arbitrary bytes) for every combination of
+// sampling factors, odd and even widths, with and without the triangle filter; the 2 KiB
+// scratch buffer is zero in one run and arbitrary (symbolic) in the other. The destination
+// pixels must not depend on it.
+#define YW_MAX 7
+#define YH 3
+#define YSTRIDE 8
+static uint8_t g_planes[3][YSTRIDE * YH];
+static void ycck_run(uint8_t* scratch, uint8_t* dst, uint32_t w, uint32_t h0, uint32_t h1, uint32_t h2, uint32_t v0, uint32_t v1, uint32_t v2, bool tri) {
+  static uint8_t p0[YSTRIDE * YH], p1[YSTRIDE * YH], p2[YSTRIDE * YH];
+  for (int i = 0; i < YSTRIDE * YH; i++) {
+    p0[i] = g_planes[0][i];
+    p1[i] = g_planes[1][i];
+    p2[i] = g_planes[2][i];
+  }
+  uint32_t hmax = h0 > h1 ? (h0 > h2 ? h0 : h2) : (h1 > h2 ? h1 : h2);
+  uint32_t vmax = v0 > v1 ? (v0 > v2 ? v0 : v2) : (v1 > v2 ? v1 : v2);
+  wuffs_base__pixel_config pc = ((wuffs_base__pixel_config){});
+  wuffs_base__pixel_config__set(&pc, WUFFS_BASE__PIXEL_FORMAT__BGRA_PREMUL, WUFFS_BASE__PIXEL_SUBSAMPLING__NONE, w, YH);
+  wuffs_base__pixel_buffer pb = ((wuffs_base__pixel_buffer){});
+  verif_check(wuffs_base__pixel_buffer__set_from_slice(&pb, &pc, wuffs_base__make_slice_u8(dst, 4 * w * YH)).repr == NULL, "ycck/pixel-buffer");
+  wuffs_base__pixel_swizzler sw = ((wuffs_base__pixel_swizzler){});
+  wuffs_base__status st = wuffs_base__pixel_swizzler__swizzle_ycck(
+      &sw, &pb, wuffs_base__empty_slice_u8(), 0, w, 0, YH,
+      wuffs_base__make_slice_u8(p0, sizeof p0), wuffs_base__make_slice_u8(p1, sizeof p1), wuffs_base__make_slice_u8(p2, sizeof p2), wuffs_base__empty_slice_u8(),
+      (w * h0 + hmax - 1) / hmax, (w * h1 + hmax - 1) / hmax, (w * h2 + hmax - 1) / hmax, 0,
+      (YH * v0 + vmax - 1) / vmax, (YH * v1 + vmax - 1) / vmax, (YH * v2 + vmax - 1) / vmax, 0,
+      YSTRIDE, YSTRIDE, YSTRIDE, 0,
+      (uint8_t)h0, (uint8_t)h1, (uint8_t)h2, 0, (uint8_t)v0, (uint8_t)v1, (uint8_t)v2, 0,
+      false, tri, wuffs_base__make_slice_u8(scratch, 2048));
+  verif_check(st.repr == NULL, "ycck/status-ok");
+}
+
+void harness_garbage_ycck(void) {
+  static uint8_t s1[2048], s2[2048];
+  static uint8_t d1[4 * YW_MAX * YH], d2[4 * YW_MAX * YH];
+  uint64_t sel = nondet_u64();
+  verif_assume(sel < 2 * 2 * 2 * 2 * 2 * 2 * 2);
+  sel = verif_conc(sel);
+  uint64_t wsel = nondet_u64();
+  verif_assume(wsel < 3);
+  wsel = verif_conc(wsel);
+  uint32_t h0 = 1 + (sel & 1), h1 = 1 + ((sel >> 1) & 1), h2 = 1 + ((sel >> 2) & 1);
+  uint32_t v0 = 1 + ((sel >> 3) & 1), v1 = 1 + ((sel >> 4) & 1), v2 = 1 + ((sel >> 5) & 1);
+  bool tri = (sel >> 6) & 1;
+  uint32_t w = YW_MAX - (uint32_t)wsel;  // 7, 6, 5
+  for (int i = 0; i < YSTRIDE * YH; i++) {
+    g_planes[0][i] = nondet_u8();
+    g_planes[1][i] = nondet_u8();
+    g_planes[2][i] = nondet_u8();
+  }
+  for (int i = 0; i < 2048; i++) s1[i] = 0;
+  verif_garbage(s2, 2048);
+  for (int i = 0; i < 4 * YW_MAX * YH; i++) d1[i] = d2[i] = 0;
+  ycck_run(s1, d1, w, h0, h1, h2, v0, v1, v2, tri);
+  ycck_run(s2, d2, w, h0, h1, h2, v0, v1, v2, tri);
+  for (int i = 0; i < 4 * YW_MAX * YH; i++) verif_check(d1[i] == d2[i], "garbage/ycck-scratch-contents-do-not-reach-the-pixels");
+  verif_reach("garbage/done");
+}
